@@ -6,6 +6,7 @@ CONSTANTS
   EofWithData = TRUE
   ShapesA <- LocalShapes
   ShapesB <- AllShapes
+  DevDrainDeadline = FALSE
   DevCloseWriterFallback = FALSE
   Emit = FALSE
   Classes = {1}
@@ -22,10 +23,12 @@ CONSTANTS
   DevSpin = FALSE
   DevNoUnblock = FALSE
   DevAliasFlush = FALSE
+  SockBatch = FALSE
+  DevNoInnerFlush = FALSE
   SockQueue = FALSE
   DevQueueRefs = FALSE
   DevDropOnClose = FALSE
 SPECIFICATION BSpec
-INVARIANTS BTypeOK BPipe BComplete BReverseKeepsFlowing BNoSpuriousEnd
+INVARIANTS BTypeOK BPipe BComplete BReverseKeepsFlowing BNoSpuriousEnd BNoDeadline
 PROPERTIES BMonotone BTermination BReverseDelivered
 CHECK_DEADLOCK FALSE
